@@ -49,6 +49,11 @@ def find_arrays(ctx, prog, kind, rel):
     ptrs = base['ref']['name']
     # index must be a plain variable whose only definitions are the result of
     # <pre>getIdFromName(<name parameter>)
+    if idx.k != 'DeclRefExpr' and not any(c.get('callee') == pre + 'getIdFromName' for c in f.calls()):
+        # the function does its own scan over the names (a row cursor, index = cursor - names): a shape the index
+        # identity below is not written for
+        raise AnalysisBroken('%s does not look the name up with %sgetIdFromName() (it indexes the table with %s): the P3 '
+                             'rules do not follow an inlined scan' % (f.name, pre, render(idx)[:40]))
     ok = idx.k == 'DeclRefExpr' and idx['ref']['kind'] == 'var'
     detail = 'index expression is %s' % render(idx)
     names_fn = None
@@ -95,6 +100,9 @@ def find_arrays(ctx, prog, kind, rel):
     names = None
     ok = len(rets) == 1
     detail = ''
+    if not any(c.get('callee') == 'snoopy_genericregistry_getIdFromName' for c in g.calls()):
+        raise AnalysisBroken('%s does not delegate to snoopy_genericregistry_getIdFromName(): the P3 rules do not follow a '
+                             'scan of its own' % g.name)
     if ok:
         s = strip(rets[0].ch[0])
         ok = s.k == 'CallExpr' and s.get('callee') == 'snoopy_genericregistry_getIdFromName'
@@ -106,6 +114,9 @@ def find_arrays(ctx, prog, kind, rel):
                 names = a0['ref']['name']
         if not ok:
             detail = 'returns %s' % render(s)
+            if not any(c.get('callee') == 'snoopy_genericregistry_getIdFromName' for c in g.calls()):
+                raise AnalysisBroken('%s does not delegate to snoopy_genericregistry_getIdFromName() (it returns %s): the P3 '
+                                     'rules do not follow a scan of its own' % (g.name, render(s)[:40]))
     chk.ob('P3', '%s:getIdFromName-delegates' % kind, ok, g.where(), g.name, detail,
            how='returns snoopy_genericregistry_getIdFromName(%s, name)' % names)
     if names is None:
